@@ -1,0 +1,43 @@
+//go:build verif
+
+// Contracts for govc (see /verif/DESIGN.md). Comment-only file.
+
+package dnum
+
+//@ property C27
+
+//@ spec p10(k int) int = k == 0 ? 1 : k == 1 ? 10 : k == 2 ? 100 : k == 3 ? 1000 : k == 4 ? 10000 : k == 5 ? 100000 : k == 6 ? 1000000 : k == 7 ? 10000000 : k == 8 ? 100000000 : k == 9 ? 1000000000 : k == 10 ? 10000000000 : k == 11 ? 100000000000 : k == 12 ? 1000000000000 : k == 13 ? 10000000000000 : k == 14 ? 100000000000000 : k == 15 ? 1000000000000000 : k == 16 ? 10000000000000000 : k == 17 ? 100000000000000000 : k == 18 ? 1000000000000000000 : k == 19 ? 10000000000000000000 : 100000000000000000000
+
+// representation invariant: sign in {-2..2}; zero is all-zero; infinities are
+// {1, +-2, 0}; finite non-zero numbers have a full 16 digit coefficient
+//@ spec validParts(sign int, coef int, exp int) bool = -2 <= sign && sign <= 2 && (sign == 0 ==> coef == 0 && exp == 0) && ((sign == 2 || sign == -2) ==> coef == 1 && exp == 0) && ((sign == 1 || sign == -1) ==> 1000000000000000 <= coef && coef <= 9999999999999999)
+//@ spec validDnum(d Dnum) bool = validParts(d.sign, d.coef, d.exp)
+//@ type Dnum(d) invariant validDnum(d)
+
+//@ func ilog10(x) (r)
+//@   requires x < 10000000000000000000
+//@   ensures! zero: x == 0 ==> r == 0
+//@   ensures! log: x != 0 ==> 0 <= r && r <= 18 && p10(r) <= x && x < p10(r + 1)
+
+//@ func maxShift(x) (r)
+//@   requires x < 10000000000000000000
+//@   ensures! zero: x == 0 ==> r == 15
+//@   ensures! shift: x != 0 && x <= 9999999999999999 ==> 0 <= r && r <= 15 && 1000000000000000 <= x * p10(r) && x * p10(r) <= 9999999999999999
+//@   ensures! big: x > 9999999999999999 ==> r == 0
+
+//@ func Inf(sign) (r)
+//@   ensures! r.sign == (sign < 0 ? -2 : sign > 0 ? 2 : 0)
+
+// New normalises: k digits are added (exactly) or d digits are dropped (rounded half up per digit)
+//@ func New(sign, coef, exp) (r)
+//@   requires -2 <= sign && sign <= 2 && coef <= 18446744073709551610 && -1000000 <= exp && exp <= 1000000
+//@   ghost k int = p
+//@   ensures! zero: (sign == 0 || coef == 0 || exp < -128) ==> r.sign == 0
+//@   ensures! inf: sign != 0 && coef != 0 && exp >= -128 && (sign == 2 || sign == -2) ==> r.sign == sign
+//@   ensures! exact: (sign == 1 || sign == -1) && coef != 0 && coef <= 9999999999999999 && exp >= -128 ==> 0 <= k && k <= 15 && ((exp - k > 127 && r.sign == 2 * sign) || (exp - k <= 127 && r.sign == sign && r.coef == coef * p10(k) && r.exp == exp - k))
+//@   ensures! rounded: (sign == 1 || sign == -1) && coef > 9999999999999999 && exp >= -128 ==> (r.sign == 2 * sign || (r.sign == sign && 1 <= r.exp - exp && r.exp - exp <= 4 && (coef - r.coef * p10(r.exp - exp)) < p10(r.exp - exp) && (r.coef * p10(r.exp - exp) - coef) < p10(r.exp - exp)))
+//@   loop 0 unroll 4
+
+//@ func Raw(sign, coef, exp) (r)
+//@   requires -128 <= exp && exp <= 127 && validParts(sign, coef, exp)
+//@   ensures! r.sign == sign && r.coef == coef && r.exp == exp
